@@ -8,10 +8,10 @@ package main
 
 import (
 	"bytes"
-	"strings"
 	"encoding/json"
 	"fmt"
 	"os"
+	"strings"
 
 	"go.sia.tech/core/types"
 	"verif/harness/internal/chaingen"
@@ -325,7 +325,7 @@ func (e *env) judge(what string, orig, out []types.V2Transaction, err error, ex 
 		return
 	}
 	e.st["rebase-ok"]++
-	e.validAtTarget(what, out, toN)
+	e.validAtTarget(what, orig, out, toN)
 	if len(got) < len(orig) {
 		e.st["rebase-dropped-confirmed"]++
 	}
@@ -400,7 +400,7 @@ func (e *env) ledgerCheck(what string, set []types.V2Transaction, n *chaingen.No
 // validAtTarget: the rebased set must validate in order on the generator's state of the target,
 // unless the tree itself explains why it cannot (an input spent or never created on the target's
 // branch, a creator that is neither in the set nor confirmed, a height window that ended).
-func (e *env) validAtTarget(what string, out []types.V2Transaction, toN *chaingen.Node) {
+func (e *env) validAtTarget(what string, orig, out []types.V2Transaction, toN *chaingen.Node) {
 	if len(out) == 0 {
 		return
 	}
@@ -408,6 +408,16 @@ func (e *env) validAtTarget(what string, out []types.V2Transaction, toN *chainge
 	if err == nil {
 		e.st["rebased-sets-validated-at-target"]++
 		return
+	}
+	// a siafund element also carries ClaimStart, which the caller of an ephemeral siafund input
+	// cannot know and the rebase does not fill in: such a set is judged by the ledger comparison only
+	for i := range orig {
+		for _, in := range orig[i].SiafundInputs {
+			if in.Parent.StateElement.LeafIndex == types.UnassignedLeafIndex {
+				e.st["rebased-set-invalid:ephemeral-siafund-claimstart"]++
+				return
+			}
+		}
 	}
 	in := e.w.Info(toN)
 	unspent := map[string]bool{}
@@ -459,6 +469,9 @@ func runCase(cs poolsim.Case, coqWanted bool) (coqOut string, failOut *failure, 
 	defer func() {
 		if p := recover(); p != nil {
 			coqOut, failOut = "", &failure{"c13-state-corrupted", fmt.Sprint("the history broke an invariant of the harness (memory shared with the manager was modified?): ", p)}
+			if fail != nil {
+				failOut = fail // the monitor that fired first names the violation
+			}
 			if stOut == nil {
 				stOut = stats{}
 			}
@@ -629,7 +642,9 @@ func runCase(cs poolsim.Case, coqWanted bool) (coqOut string, failOut *failure, 
 			m := poolsim.Meta{SignedAt: tip.Height, POK: true}
 			basis := w.Info(tip).Index
 			one := types.Siacoins(1)
-			mine := func(o types.SiacoinOutput) bool { return o.Address == w.Env.Addr && o.Value.Cmp(types.Siacoins(10)) > 0 }
+			mine := func(o types.SiacoinOutput) bool {
+				return o.Address == w.Env.Addr && o.Value.Cmp(types.Siacoins(10)) > 0
+			}
 			switch stp.Flavor {
 			case "pooled":
 				if len(p2) == 0 {
@@ -1111,7 +1126,7 @@ func run(c *hx.Ctx) {
 		return
 	}
 	doCase(longLine(c.Seed))
-	n := c.Scale(120, 2000)
+	n := c.Scale(105, 2000)
 	for i := 0; i < n; i++ {
 		g := c.R.Fork()
 		cs := poolsim.Case{Seed: g.U64(), Regime: []int{2, 1, 2, 5}[i%4], Opts: chaingen.GenOpts{Blocks: 7 + g.Intn(9), Branchiness: 2 + g.Intn(3), TxPerBlock: 1 + g.Intn(3), Jitter: g.Intn(3)}}
